@@ -33,10 +33,37 @@ package ipv4
 //@   requires len(vv.views) == 0 || len(vv.views[0]) < header.IPv4MinimumSize || be16(vv.views[0], 6) & 0x3fff == 0
 //@   modifies everything()
 
+// handleICMP itself never emits an ICMP message (replies are sent by the replier only).
 //@ func (*endpoint).handleICMP props C07 C13
-//@   requires epOK(e) && r != nil && vvOK(vv)
+//@   requires epOK(e) && r != nil && vvOK(vv) && vv.size <= 0xffff
+//@   ensures ghost(icmpSent) == old(ghost(icmpSent))
 //@   modifies everything()
 
 //@ func (*endpoint).handleControl props C07
 //@   requires epOK(e) && vvOK(vv)
 //@   modifies everything()
+
+// ---------------------------------------------------------------------------
+// Echo (C13). A request accepted by handleICMP travels to the replier goroutine through the
+// echoRequests channel; its element invariant (checked at the send, assumed at the receive)
+// is that the bytes after the 4-byte ICMP header - identifier, sequence number, payload - are
+// at least 2 (this stack accepts echo requests from 6 bytes on) and at most 65535.
+//@ define chaninv_echoRequest(x) = len(x.v) >= 2 && len(x.v) <= 0xffff
+
+// sendPing4 emits exactly one ICMPv4 message: an echo reply (type 0) with the given code and a
+// 6-byte header whose last two bytes (the identifier) are the first two bytes of data, and
+// whose payload (sequence number and data) is the rest of data - the very bytes - with a
+// checksum that verifies (obligation at the hand-over, see stack.Route.WritePacket).
+//@ func sendPing4 props C13 C06
+//@   requires r != nil && len(data) >= 2 && len(data) <= 0xffff
+//@   ensures ghost(icmpSent) == old(ghost(icmpSent)) + 1 && ghost(lastICMPType) == int(header.ICMPv4EchoReply) && ghost(lastICMPCode) == int(code)
+//@   ensures ghost(lastICMPHdrLen) == header.ICMPv4EchoMinimumSize
+//@   ensures ghost(lastICMPPayloadArr) == int(arr(data)) && ghost(lastICMPPayloadOff) == off(data) + 2 && ghost(lastICMPPayloadLen) == len(data) - 2
+//@   modifies everything(), ghost(tcpSegs), ghost(lastTCPFlags), ghost(lastTCPSeq), ghost(lastTCPAck), ghost(sentNonFin), ghost(sentFin), ghost(icmpSent), ghost(lastICMPType), ghost(lastICMPCode), ghost(lastICMPHdrLen), ghost(lastICMPPayloadArr), ghost(lastICMPPayloadOff), ghost(lastICMPPayloadLen)
+
+// The replier answers every request it receives with exactly that reply; it never sends
+// anything else.
+//@ func (*endpoint).echoReplier props C13
+//@   requires e != nil
+//@   loop 1 invariant true
+//@   modifies everything(), ghost(tcpSegs), ghost(lastTCPFlags), ghost(lastTCPSeq), ghost(lastTCPAck), ghost(sentNonFin), ghost(sentFin), ghost(icmpSent), ghost(lastICMPType), ghost(lastICMPCode), ghost(lastICMPHdrLen), ghost(lastICMPPayloadArr), ghost(lastICMPPayloadOff), ghost(lastICMPPayloadLen)
